@@ -12,8 +12,11 @@ Shapes == UNION { SortedTopos(n) : n \in 1 .. MaxN } \cup { <<-1, 2, 0>>, <<-1, 
 BinShapes == IF BinN THEN { <<-1, 0, 0, 1, 1>>, <<-1, 0, 1, 1, 2, 2>>, <<-1, 0, 1, 2, 2, 1, 5, 5>>, <<-1, 0, 1, 1, 2, 3, 4, 4>> } ELSE {}
 Trees == UNION { { [P |-> P, pos |-> PlaceAll(P, vs)] : vs \in [1 .. Len(P) -> Vecs] } : P \in Shapes }
          \cup UNION { { [P |-> P, pos |-> PlaceAll(P, [k \in 1 .. Len(P) |-> AllVecs[((k * m + k \div 3) % 7) + 1]])] : m \in 1 .. 6 } : P \in BinShapes }
+\* paths and branches that come back to where they started (straight-line distance 0 at positive length), stems folded back onto the root
+Back == { <<1, 0, 0>>, <<-1, 0, 0>>, <<0, 0, 0>> }
+Returning == UNION { { [P |-> P, pos |-> PlaceAll(P, vs)] : vs \in [1 .. Len(P) -> Back] } : P \in { <<-1, 0, 1>>, <<-1, 0, 1, 2>>, <<-1, 0, 0, 1>>, <<-1, 0, 1, 1>> } }
 Radii == << <<1, 2>>, <<1, 1>>, <<4, 1>>, <<9, 2>>, <<9, 1>>, <<25, 1>>, <<51, 2>>, <<0, 1>> >>            \* rho^2 = num/den: between lattice radii, and exactly on them where the root is exact
-AllSeq == SetToSeq(Trees)
+AllSeq == SetToSeq(Trees \cup Returning)
 Numbered == [j \in 1 .. Len(AllSeq) |-> [cid |-> j, kind |-> "tree", radii |-> Radii, steps |-> 1 + (j % 5), motion |-> j % 8] @@ AllSeq[j]]
 VARIABLE done
 Init == done = ndJsonSerialize(IOEnv.OUT, Numbered)
